@@ -745,6 +745,16 @@ func (g *gen) evalCall(env *specEnv, e *SExpr) (Val, error) {
 		return Val{T: ite(args[0].T, a.T, b.T), Sort: a.Sort, Typ: a.Typ}, nil
 	case "tag":
 		return intVal(app("i_tag", args[0].T)), nil
+	case "private":
+		g.declareFun("private", []string{"Int"}, "Bool")
+		t := args[0].T
+		if args[0].Sort == "Iface" {
+			t = app("i_val", t)
+		}
+		return boolVal(app("private", t)), nil
+	case "cursorPrivate":
+		g.declareFun("cursorPrivate", []string{"Int"}, "Bool")
+		return boolVal(app("cursorPrivate", args[0].T)), nil
 	case "payload":
 		return Val{T: app("i_val", args[0].T), Sort: "Int"}, nil
 	case "isNilIface":
